@@ -106,6 +106,8 @@ class ESETrackModif(EmulatedSymbExec):
                                    # symbolize
         self.dse_memory_to_expr = None # function(addr) -> Expr used to
                                        # symbolize
+        self.dse_memory_written = set() # Symbolized addresses overwritten
+                                        # since their symbolization
 
     def mem_read(self, expr_mem):
         if not expr_mem.ptr.is_int():
@@ -115,7 +117,8 @@ class ESETrackModif(EmulatedSymbExec):
         # Split access in atomic accesses
         out = []
         for addr in range(dst_addr, dst_addr + expr_mem.size // 8):
-            if addr in self.dse_memory_range:
+            if (addr in self.dse_memory_range and
+                addr not in self.dse_memory_written):
                 # Symbolize memory access
                 out.append(self.dse_memory_to_expr(addr))
                 continue
@@ -135,6 +138,12 @@ class ESETrackModif(EmulatedSymbExec):
         return self.expr_simp(ExprCompose(*out))
 
     def mem_write(self, expr, data):
+        # A write to a symbolized address supersedes its symbol
+        if expr.ptr.is_int():
+            dst_addr = int(expr.ptr)
+            for addr in range(dst_addr, dst_addr + expr.size // 8):
+                if addr in self.dse_memory_range:
+                    self.dse_memory_written.add(addr)
         # Call Symbolic mem_write (avoid side effects on vm)
         return super(EmulatedSymbExec, self).mem_write(expr, data)
 
@@ -413,6 +422,7 @@ class DSEEngine(object):
             "mem": self.jitter.vm.get_all_memory(),
             "regs": self._get_gpregs(),
             "symb": self.symb.symbols.copy(),
+            "dse_memory_written": set(self.symb.dse_memory_written),
         }
         return snapshot
 
@@ -447,6 +457,9 @@ class DSEEngine(object):
             del self.symb.symbols[key]
         for expr, value in viewitems(snapshot["symb"]):
             self.symb.symbols[expr] = value
+        self.symb.dse_memory_written = set(
+            snapshot.get("dse_memory_written", ())
+        )
 
     def update_state(self, assignblk):
         """From this point, assume @assignblk in the symbolic execution
@@ -499,6 +512,7 @@ class DSEEngine(object):
         """
         self.symb.dse_memory_range = memory_range
         self.symb.dse_memory_to_expr = self.memory_to_expr
+        self.symb.dse_memory_written = set()
 
 
 class DSEPathConstraint(DSEEngine):
